@@ -405,6 +405,7 @@ pub fn spec(id: &str, variant: &str, cancelable: bool, thorough: bool) -> Option
                 ops: (0, 14),
                 cycles: (1, 6),
                 ..base.clone().set(&[
+                    (K::Bulk, 1),
                     (K::CollectorStart, 3),
                     (K::PushChildSpans, 4),
                     (K::Flush, 4),
@@ -428,6 +429,7 @@ pub fn spec(id: &str, variant: &str, cancelable: bool, thorough: bool) -> Option
                 sched_len: (0, 40),
                 templates: vec![(2, Template::CrossQueue), (1, Template::FanIn)],
                 ..base.clone().set(&[
+                    (K::Bulk, 2),
                     (K::CollectorStart, 2),
                     (K::PushChildSpans, 3),
                     (K::Flush, 3),
@@ -451,6 +453,7 @@ pub fn spec(id: &str, variant: &str, cancelable: bool, thorough: bool) -> Option
                 cancelable: Some(true),
                 templates: vec![(2, Template::CrossQueue), (4, Template::FanIn)],
                 ..base.clone().set(&[
+                    (K::Bulk, 3),
                     (K::CollectorStart, 2),
                     (K::PushChildSpans, 3),
                     (K::Flush, 2),
@@ -472,7 +475,8 @@ pub fn spec(id: &str, variant: &str, cancelable: bool, thorough: bool) -> Option
                 cycles: (0, 6),
                 cancelable: Some(true),
                 templates: vec![(4, Template::FanIn)],
-                ..base.clone().set(&[(K::CollectorStart, 2), (K::PushChildSpans, 3), (K::Flush, 5), (K::Exit, 2), (K::Finish, 16)])
+                ..base.clone().set(&[
+                    (K::Bulk, 1),(K::CollectorStart, 2), (K::PushChildSpans, 3), (K::Flush, 5), (K::Exit, 2), (K::Finish, 16)])
             }),
             opts: api.clone(),
             oracle: o_c03,
@@ -489,6 +493,7 @@ pub fn spec(id: &str, variant: &str, cancelable: bool, thorough: bool) -> Option
                 cancelable: Some(cancelable),
                 templates: vec![(3, Template::CrossQueue), (1, Template::FanIn)],
                 ..base.clone().set(&[
+                    (K::Bulk, 1),
                     (K::Cancel, 9),
                     (K::MultiChild, 6),
                     (K::CollectorStart, 2),
@@ -545,6 +550,7 @@ pub fn spec(id: &str, variant: &str, cancelable: bool, thorough: bool) -> Option
                 cancelable: Some(cancelable),
                 templates: vec![(3, Template::CrossQueue)],
                 ..base.clone().set(&[
+                    (K::Bulk, 1),
                     (K::Root, 16),
                     (K::Cancel, 4),
                     (K::Exit, 4),
